@@ -196,7 +196,147 @@ theorem tg_group_parse (r : C_librdsparser) (hI : CInv r) (g : Group) (hg : g.Bo
   · simp only [h2, if_false]
     exact s1
 
+/-! ## version flag -/
+
+/-- the `flag` argument the dispatcher passes on (`rdsparser_parser_get_flag`) -/
+def tg_flag (g : Group) : Int := ((g.b / 2048 % 2 : Nat) : Int)
+
+theorem tg_flag_eq (g : Group) : c_rdsparser_parser_get_flag (dataOf g) = tg_flag g :=
+  TransBits.parser_get_flag _ _ _ _
+
+theorem tg_flag_beq (g : Group) : (tg_flag g == 0) = !g.versionB := by
+  unfold tg_flag
+  have h2 : g.b / 2048 % 2 = 0 ∨ g.b / 2048 % 2 = 1 := by omega
+  rcases h2 with h2 | h2 <;> simp [Group.versionB, h2]
+
+/-! ## `rdsparser_group1_parse` -/
+
+theorem tg_group1 (u : Bool) (r : C_librdsparser) (hI : CInv r) (g : Group) (hg : g.Bounded) (log : CLog) :
+    tg_Ref log (c_rdsparser_group1_parse r (dataOf g) (errorsOf g) (tg_flag g) log) (group1 (cfgC u) (abs r) g) := by
+  obtain ⟨ha, hb, hc, hd, hea, heb, hec, hed⟩ := hg
+  have hvar : c_rdsparser_group1a_get_variant (dataOf g) = ((g.c / 4096 % 8 : Nat) : Int) :=
+    TransBits.group1a_get_variant _ _ _ _
+  have hecc : c_rdsparser_group1a0_get_ecc (dataOf g) = ((g.c % 256 : Nat) : Int) :=
+    TransBits.group1a0_get_ecc _ _ _ _
+  by_cases hc : (!g.versionB && decide (g.eb = 0) && decide (g.ec = 0) && decide (g.c / 4096 % 8 = 0)) = true
+  · have e : c_rdsparser_group1_parse r (dataOf g) (errorsOf g) (tg_flag g) log =
+        cSetField .country (cSetField .ecc r ((g.c % 256 : Nat) : Int) log).1
+          (c_rdsparser_ecc_lookup (c_rdsparser_get_pi (cSetField .ecc r ((g.c % 256 : Nat) : Int) log).1)
+            ((g.c % 256 : Nat) : Int))
+          (cSetField .ecc r ((g.c % 256 : Nat) : Int) log).2 := by
+      simp only [Bool.and_eq_true, decide_eq_true_eq] at hc
+      obtain ⟨⟨⟨h1, h2⟩, h3⟩, h4⟩ := hc
+      unfold c_rdsparser_group1_parse c_rdsparser_group1a_parse
+      simp only [tg_flag_beq, tg_err1, tg_err2, tg_beq0, hvar, hecc, h1, h2, h3, h4, cSetField]
+      simp
+    rw [e]
+    unfold group1
+    rw [if_pos hc]
+    have s1 := tg_setField .ecc r hI ((g.c % 256 : Nat) : Int) (by simp only [FldRange]; omega) log
+    refine tg_Ref_then (fun s => setField s .country (eccLookup (cfgC u) s.used.pi ((g.c % 256 : Nat) : Int))) s1 ?_
+    intro hI1
+    have hu := hI1.used
+    have hl := ecc_lookup_refines u (c_rdsparser_get_pi (cSetField .ecc r ((g.c % 256 : Nat) : Int) log).1)
+      ⟨hu.1, hu.2.1⟩ (g.c % 256) (by omega)
+    rw [hl.1]
+    refine tg_setField .country _ hI1 _ ?_ _
+    simp only [FldRange]
+    rw [← hl.1]; exact hl.2
+  · have e : c_rdsparser_group1_parse r (dataOf g) (errorsOf g) (tg_flag g) log = (r, log) := by
+      unfold c_rdsparser_group1_parse c_rdsparser_group1a_parse
+      simp only [tg_flag_beq, tg_err1, tg_err2, tg_beq0, hvar]
+      by_cases h1 : g.versionB = true
+      · simp [h1]
+      · by_cases h23 : (decide (g.eb = 0) && decide (g.ec = 0)) = true
+        · have h4 : ¬ g.c / 4096 % 8 = 0 := by
+            intro h4; apply hc; simp only [Bool.and_eq_true, decide_eq_true_eq] at h23 ⊢
+            simp [h1, h23, h4]
+          simp [h1, h23, h4]
+        · simp [h1, h23]
+    rw [e]
+    unfold group1
+    rw [if_neg hc]
+    exact tg_Ref_refl r log hI
+
+/-! ## `rdsparser_group4_parse` -/
+
+theorem tg_ct_offset (mjd hour minute : Nat) (off : Int) (v : CtVal) (hv : ctInit mjd hour minute off = some v) :
+    v.offsetMin = off * 30 := by
+  unfold ctInit at hv
+  split at hv
+  · cases hv
+  · cases hv; rfl
+
+theorem tg_group4 (r : C_librdsparser) (hI : CInv r) (g : Group) (hg : g.Bounded) (log : CLog) :
+    tg_Ref log (r, c_rdsparser_group4_parse r (dataOf g) (errorsOf g) (tg_flag g) log) (group4 (abs r) g) := by
+  obtain ⟨ha, hb, hc, hd, hea, heb, hec, hed⟩ := hg
+  have hreg : (abs r).registered .ct = (r.callback_ct != 0) := rfl
+  by_cases hcnd : (!g.versionB && decide (g.eb = 0) && decide (g.ec = 0) && decide (g.ed = 0) &&
+      (abs r).registered .ct) = true
+  · have hcnd' := hcnd
+    simp only [Bool.and_eq_true, decide_eq_true_eq] at hcnd'
+    obtain ⟨⟨⟨⟨h1, h2⟩, h3⟩, h4⟩, h5⟩ := hcnd'
+    have h5' : (r.callback_ct != 0) = true := by rw [← hreg]; exact h5
+    have hmjd : c_rdsparser_group4a_get_mjd (dataOf g) = (((ctFields g).1 : Nat) : Int) :=
+      TransBits.group4a_get_mjd _ _ _ _ hc
+    have hhour : i8 (c_rdsparser_group4a_get_hour (dataOf g)) = (((ctFields g).2.1 : Nat) : Int) := by
+      unfold dataOf; rw [TransBits.group4a_get_hour]
+      apply i8_of_range <;> omega
+    have hmin : i8 (c_rdsparser_group4a_get_minute (dataOf g)) = (((ctFields g).2.2.1 : Nat) : Int) := by
+      unfold dataOf; rw [TransBits.group4a_get_minute]
+      apply i8_of_range <;> omega
+    have hoff : c_rdsparser_group4a_get_time_offset (dataOf g) = (ctFields g).2.2.2 :=
+      TransBits.group4a_get_time_offset _ _ _ _
+    have hr1 : (ctFields g).1 < 131072 := by simp only [ctFields]; omega
+    have hr2 : (ctFields g).2.1 < 32 := by simp only [ctFields]; omega
+    have hr3 : (ctFields g).2.2.1 < 64 := by simp only [ctFields]; omega
+    have hr4 : -31 ≤ (ctFields g).2.2.2 ∧ (ctFields g).2.2.2 ≤ 31 := by
+      simp only [ctFields]; split <;> omega
+    have hinit := TransBits.ct_init_eq C_rdsparser_ct.zero _ _ _ _ hr2 hr3 hr4 hr1
+    have e : c_rdsparser_group4_parse r (dataOf g) (errorsOf g) (tg_flag g) log =
+        match ctInit (ctFields g).1 (ctFields g).2.1 (ctFields g).2.2.1 (ctFields g).2.2.2 with
+        | none => log
+        | some v => log ++ [⟨"ct", [v.year, v.month, v.day, v.hour, v.minute, (ctFields g).2.2.2, r.user_data], r⟩] := by
+      unfold c_rdsparser_group4_parse c_rdsparser_group4a_parse
+      simp only [tg_flag_beq, tg_err1, tg_err2, tg_err3, tg_beq0, h1, h2, h3, h4, h5', hmjd, hhour, hmin, hoff, hinit]
+      cases ctInit (ctFields g).1 (ctFields g).2.1 (ctFields g).2.2.1 (ctFields g).2.2.2 <;> simp
+    rw [e]
+    unfold group4
+    rw [if_pos hcnd]
+    simp only []
+    cases hv : ctInit (ctFields g).1 (ctFields g).2.1 (ctFields g).2.2.1 (ctFields g).2.2.2 with
+    | none => exact tg_Ref_refl r log hI
+    | some v =>
+      refine ⟨rfl, ?_, hI⟩
+      have ho := tg_ct_offset _ _ _ _ v hv
+      simp only [tb_absLog_snoc, emit, h5, if_true]
+      have : absEvent ⟨"ct", [v.year, v.month, v.day, v.hour, v.minute, (ctFields g).2.2.2, r.user_data], r⟩ =
+          some ⟨.ct ⟨v.year, v.month, v.day, v.hour, v.minute, (ctFields g).2.2.2 * 30⟩, r.user_data.toNat, abs r⟩ := rfl
+      rw [this, ← ho]
+      rfl
+  · have e : c_rdsparser_group4_parse r (dataOf g) (errorsOf g) (tg_flag g) log = log := by
+      unfold c_rdsparser_group4_parse c_rdsparser_group4a_parse
+      simp only [tg_flag_beq, tg_err1, tg_err2, tg_err3, tg_beq0]
+      by_cases h1 : g.versionB = true
+      · simp [h1]
+      · by_cases h234 : (decide (g.eb = 0) && decide (g.ec = 0) && decide (g.ed = 0)) = true
+        · have h5 : (r.callback_ct != 0) = false := by
+            rw [← hreg]
+            cases h5 : (abs r).registered .ct
+            · rfl
+            · exfalso; apply hcnd
+              simp only [Bool.and_eq_true, decide_eq_true_eq] at h234 ⊢
+              simp [h1, h234, h5]
+          simp [h1, h234, h5]
+        · simp [h1, h234]
+    rw [e]
+    unfold group4
+    rw [if_neg hcnd]
+    exact tg_Ref_refl r log hI
+
 end RDS.C
 
 #print axioms RDS.C.ecc_lookup_refines
 #print axioms RDS.C.tg_group_parse
+#print axioms RDS.C.tg_group1
+#print axioms RDS.C.tg_group4
